@@ -864,6 +864,8 @@ func (s *scanner) ReadDict() (dict Dict, err error) {
 	return dict, nil
 }
 
+var errNoStreamData = errors.New("cannot read stream data")
+
 // ReadStreamData reads the data of a PDF Stream, starting after the Dict.
 func (s *scanner) ReadStreamData(dict Dict) (stm *Stream, err error) {
 	defer func() {
@@ -921,9 +923,7 @@ func (s *scanner) ReadStreamData(dict Dict) (stm *Stream, err error) {
 
 	origReader := s.fileReader
 	if origReader == nil {
-		return nil, &MalformedFileError{
-			Err: errors.New("cannot read stream data"),
-		}
+		return nil, &MalformedFileError{Err: errNoStreamData}
 	}
 	start := s.CurrentPos()
 
